@@ -115,7 +115,13 @@ static std::string classify_stderr(const std::string& err, int status) {
           kind += ":" + k;
         }
       }
-    } else kind = line;
+    } else {
+      // e.g. "AddressSanitizer: out-of-memory (/path/blocsim+0x57d43d) (BuildId: ...) in operator new(unsigned long)": keep only what is stable across builds
+      kind = std::regex_replace(line, std::regex(" ?\\([^)]*\\)"), "");
+      for (auto& ch : kind) if (ch == ' ') ch = '-';
+      // the innermost frame inside the repository names the place
+      size_t f = err.find(" /repo/"); if (f != std::string::npos) { size_t fe = err.find_first_of(":\n", f + 7); std::string file = err.substr(f + 1, fe - f - 1); size_t sl = file.rfind('/'); where = sl == std::string::npos ? file : file.substr(sl + 1); }
+    }
   } else if (err.find("terminate called") != std::string::npos || err.find("SIM-TERMINATE") != std::string::npos) {
     kind = "terminate";
     size_t q = err.find("SIM-TERMINATE ");
